@@ -637,6 +637,11 @@ class PVLParser(object):
                     "While parsing, expected a comma (,)" f'but found: "{t}"',
                 )
 
+        raise ParseError(
+            f'Ran out of tokens before the closing "{delimiters[1]}" '
+            f"of the Set or Sequence that begins: {set_seq}"
+        )
+
     def parse_set(self, tokens: abc.Generator) -> frozenset:
         """Parses a PVL Set.
 
